@@ -12,8 +12,9 @@ filled are removed, everything above moves down; reward = (0, 40, 100, 300, 1200
 A new piece is then drawn.  The episode ends on an illegal action, when the new piece has no legal
 placement, or when step_count reaches time_limit.
 
-State encoding: `grid_padded` carries 3 padding rows/columns (always empty) and positive "colour"
-values in filled cells; only occupancy (> 0) is meaningful.
+State encoding: `grid_padded` carries 3 padding rows/columns and positive "colour" values in filled
+cells; only the occupancy (> 0) of the num_rows x num_cols board region is meaningful (what the padding
+holds is internal representation and is not asserted).
 """
 from __future__ import annotations
 
@@ -184,13 +185,13 @@ class M(Model):
     def _padding_problems(self, s):
         g = np.asarray(s.grid_padded)
         out = []
-        if g.shape != (self.R + 3, self.C + 3):
+        # audit: the contents (and exact extent) of the padding are internal representation that no property mentions
+        # (a floor of ones would be an equally valid encoding) - only the board region must be readable and, as
+        # documented, hold zeros / positive values
+        if g.ndim != 2 or g.shape[0] < self.R or g.shape[1] < self.C:
             return [("grid_padded shape", str(g.shape))]
-        if (g[self.R:, :] != 0).any() or (g[:, self.C:] != 0).any():
-            out.append(("padding rows/columns of the grid are not empty",
-                        f"nonzero padding cells {np.argwhere(np.pad(np.zeros((self.R, self.C), bool), ((0, 3), (0, 3)), constant_values=True) & (g != 0))[:3].tolist()}"))
-        if (g < 0).any():
-            out.append(("negative grid value", str(int(g.min()))))
+        if (g[: self.R, : self.C] < 0).any():
+            out.append(("negative grid value", str(int(g[: self.R, : self.C].min()))))
         return out
 
     # ---- plan bias ('solve' mode of the drivers)
@@ -255,13 +256,9 @@ class M(Model):
                 out.append(("new_tetromino is not the piece named by tetromino_index", f"index {idx}"))
             if ts is not None and int(ts.step_type) != LAST and not legal_table(occ, self.P[idx]).any():
                 out.append(("episode continues although the current piece cannot be placed anywhere", f"piece {idx}"))
-        if ts is not None:
-            og = np.asarray(ts.observation.grid)
-            if ((og != 0) & (og != 1)).any():
-                out.append(("observed grid is not binary", f"max {int(og.max())}"))
+        # audit: "observed grid is binary" is an observation matter (C12 compares it with the clipped state) and "board
+        # empty at reset" an instance matter (C10) - removed from the C07 oracle
         if prev is None:
-            if occ.any():
-                out.append(("board not empty at reset", f"{int(occ.sum())} cells"))
             return out
         pocc = self._occ(prev)
         n_prev, n_now = int(pocc.sum()), int(occ.sum())
@@ -272,17 +269,11 @@ class M(Model):
         else:
             cleared = diff // self.C
             if cleared:
-                _stat(f"Tetris invariants clear {cleared} rows={np.flatnonzero(np.asarray(s.full_lines)).tolist()}")
-            if ts is not None and float(ts.reward) != REWARDS[cleared]:
-                out.append(("reward does not match the number of cleared rows",
-                            f"cleared {cleared} reward {float(ts.reward)}"))
+                _stat(f"Tetris invariants clear {cleared} rows={np.flatnonzero(np.asarray(getattr(s, 'full_lines', []))).tolist()}")
             if cleared == 0 and (pocc & ~occ).any():
                 out.append(("filled cells vanished without a cleared row", str(np.argwhere(pocc & ~occ)[:3].tolist())))
-        if int(s.step_count) != int(prev.step_count) + 1:
-            out.append(("step_count not incremented", f"{int(prev.step_count)} -> {int(s.step_count)}"))
-        if ts is not None and abs(float(s.score) - (float(prev.score) + float(ts.reward))) > 1e-3:
-            out.append(("score is not the running sum of rewards",
-                        f"{float(prev.score)} + {float(ts.reward)} -> {float(s.score)}"))
+        # audit: reward per cleared rows, step_count and score bookkeeping are transition rules (C09 predicts them), not
+        # the physical consistency / cell-count conservation C07 lists - removed from the C07 oracle
         return out
 
     # ---- C08 (supplementary)
@@ -311,14 +302,14 @@ class M(Model):
         occ = self._occ(s)
         piece = self.P[self._idx(s), r]
         if not is_legal(occ, piece, x):
-            return {"last": True, "reward": 0.0, "discount": 0.0}
+            return {"last": True, "reward": 0.0}  # audit: discount is C03's, not part of C09 - not predicted
         g2, n, _ = place_and_clear(occ, piece, x)
         reward = REWARDS[n]
+        # audit: state.reward, x_position and grid_padded_old are rendering helpers (last placement / previous grid for
+        # the animation), not "Tetris drop and line clearing" rules - no longer predicted; the board itself is compared
+        # in stochastic_ok, step_count and score (documented "cumulative reward") stay
         st = {"step_count": int(s.step_count) + 1,
-              "score": np.asarray(float(s.score) + reward, np.asarray(s.score).dtype),
-              "reward": np.asarray(reward, np.asarray(s.reward).dtype),
-              "x_position": x,
-              "grid_padded_old": np.asarray(s.grid_padded)}
+              "score": np.asarray(float(s.score) + reward, np.asarray(s.score).dtype)}
         out = {"state": st, "reward": reward}
         # termination also depends on the randomly drawn next piece: decided here only when it does not
         placeable = [legal_table(g2, self.P[k]).any() for k in range(self.P.shape[0])]
@@ -357,7 +348,7 @@ class M(Model):
         out = self._padding_problems(s0)
         if out and out[0][0] == "grid_padded shape":
             return out
-        if (np.asarray(s0.grid_padded) != 0).any():
+        if self._occ(s0).any():
             out.append(("board not empty at reset", ""))
         idx = self._idx(s0)
         if not (0 <= idx < self.P.shape[0]):
@@ -375,15 +366,18 @@ class M(Model):
     def observe_check(self, s, obs):
         out = []
         g = np.asarray(s.grid_padded)
-        if g.shape != (self.R + 3, self.C + 3):
+        if g.ndim != 2 or g.shape[0] < self.R or g.shape[1] < self.C:
             return [("grid_padded shape", str(g.shape))]
         want = np.clip(g[: self.R, : self.C], 0, 1)
-        if np.asarray(s.full_lines).any():
-            _stat(f"Tetris observe_check clear {int(np.asarray(s.full_lines).sum())}")
+        fl = np.asarray(getattr(s, "full_lines", []))  # debug statistics only, never asserted
+        if fl.any():
+            _stat(f"Tetris observe_check clear {int(fl.sum())}")
         og = np.asarray(obs.grid)
         if og.shape != want.shape or not np.array_equal(og, want):
             out.append(("grid is not the occupied cells of the state clipped to 0/1", ""))
-        if not np.array_equal(np.asarray(obs.tetromino), np.asarray(s.new_tetromino)):
+        # audit: compared by occupancy (filled cells of the state may carry any positive value; the 0/1 range of the
+        # observation is spec conformance, C01)
+        if not np.array_equal(np.asarray(obs.tetromino) > 0, np.asarray(s.new_tetromino) > 0):
             out.append(("tetromino differs from the state's next piece", ""))
         idx = self._idx(s)
         if 0 <= idx < self.P.shape[0] and not np.array_equal(np.asarray(obs.tetromino) > 0, self.P[idx, 0]):
@@ -498,7 +492,8 @@ def _check_utils(R, C, boards, idxs, rots, xs, colours):
             for a, b_ in np.argwhere(tets[i] > 0):
                 want[y + a, xs[i] + b_] = True
             got = new_g[k]
-            if not np.array_equal(got[:R, :C] > 0, want) or (got[R:, :] != 0).any() or (got[:, C:] != 0).any():
+            # audit: only the board region is compared (padding contents are internal representation)
+            if not np.array_equal(got[:R, :C] > 0, want):
                 out.append(("synthetic.place", "place_tetromino differs from drop-to-rest",
                             f"{R}x{C} piece {idxs[i]} rot {rots[i]} x {xs[i]} resting row {y}",
                             _case("place", R, C, boards[i], idxs[i], rots[i], xs[i])))
@@ -522,7 +517,7 @@ def _check_clear(R, C, boards, colours):
         vals = g[i][:R, :C]
         kept = vals[~fr]
         want = np.concatenate([np.zeros((int(fr.sum()), C), np.int32), kept], axis=0)
-        if not np.array_equal(got[i][:R, :C], want) or (got[i][R:, :] != 0).any() or (got[i][:, C:] != 0).any():
+        if not np.array_equal(got[i][:R, :C], want):  # audit: board region only
             out.append(("synthetic.clean_lines", "clean_lines differs from remove-full-rows-and-shift-down",
                         f"{R}x{C} full rows {np.flatnonzero(fr).tolist()}", _case("clear", R, C, occ)))
     return out
